@@ -3,6 +3,15 @@
 // result class, the stored task infos together with the set of concrete (db, collection) pairs each of them
 // selects through the exported GetShouldReadFunc (data path) and through GetCollectionInfos+MatchCollection
 // (DDL-message path), and the duplicate-detection book-keeping from VerifSnapshot.
+//
+// Requests in flight (plans of the TaskBook configurations with MaxFlight > 0): `begin` starts a create on its own
+// goroutine and `step` lets it go on; the request is held INSIDE a store call by the gate decorator around the
+// MetaStoreFactory (srvenv.GateStore): before its 1st store call (the duplicate check has reserved its names, the
+// revert closure exists, no task is stored) and before its 4th (the task is stored, startInternal is about to read
+// the positions); `fault` = the k-th store call of THAT request fails.  Exactly one request goroutine runs at a
+// time, every other one is parked at a gate or has returned; atomic `create` / `delete` steps run in between on the
+// driver's goroutine.  Every event lists the requests that have not returned (`flight`); requests still in flight at
+// the end of the plan are run to completion (appended `step` events), so every trace ends quiescent.
 package main
 
 import (
@@ -10,6 +19,7 @@ import (
 	"fmt"
 	"sort"
 	"strings"
+	"time"
 
 	"github.com/milvus-io/milvus-proto/go-api/v2/schemapb"
 
@@ -91,8 +101,76 @@ func classify(err error) string {
 
 type world struct {
 	env  *srvenv.Env
+	gate *srvenv.GateStore
 	tgts map[string]string // model target -> uri
 	rev  map[string]string
+	reqs map[int]*flight // plan position of the `begin` -> request
+}
+
+// a create request executed section by section
+type flight struct {
+	pos    int
+	id     string
+	st     map[string]interface{} // the begin step (specification, flags, fault)
+	gr     *srvenv.GateReq
+	done   chan error
+	active bool // the call has not returned
+}
+
+const gateWait = 20 * time.Second
+
+// runs the request's goroutine until it parks at its next gate ("run") or the call returns; "" = machinery timeout
+func (w *world) advance(f *flight, start func()) (res, errText string) {
+	w.gate.SetCurrent(f.gr)
+	defer w.gate.SetCurrent(nil)
+	start()
+	select {
+	case <-f.gr.Parked:
+		return "run", ""
+	case err := <-f.done:
+		f.active = false
+		if err != nil {
+			return classify(err), err.Error()
+		}
+		return "ok", ""
+	case <-time.After(gateWait):
+		return "", "the request neither reached a store call nor returned"
+	}
+}
+
+func (w *world) begin(pos int, st map[string]interface{}) (*flight, string, string) {
+	id := fmt.Sprintf("t%02d", pos)
+	req := w.createReq(st, id)
+	f := &flight{pos: pos, id: id, st: st, done: make(chan error, 1), active: true,
+		gr: w.gate.NewReq(id, []int{1, 4}, []int{hx.I(st, "fault")})}
+	w.reqs[pos] = f
+	res, txt := w.advance(f, func() {
+		go func() {
+			resp, err := w.env.CDC.Create(req)
+			if err == nil && resp.TaskID != id {
+				err = fmt.Errorf("create returned another task id: %s", resp.TaskID)
+			}
+			f.done <- err
+		}()
+	})
+	return f, res, txt
+}
+
+func (w *world) inFlight() []*flight {
+	var fs []*flight
+	for _, f := range w.reqs {
+		if f.active {
+			fs = append(fs, f)
+		}
+	}
+	sort.Slice(fs, func(i, j int) bool { return fs[i].pos < fs[j].pos })
+	return fs
+}
+
+func (f *flight) describe(ev hx.Event) {
+	ev["db"], ev["coll"], ev["via"], ev["map"], ev["ur"], ev["tgt"] = hx.S(f.st, "db"), hx.S(f.st, "coll"), hx.S(f.st, "via"), hx.S(f.st, "map"), hx.B(f.st, "ur"), hx.S(f.st, "tgt")
+	ev["id"] = f.id
+	ev["fault"] = hx.I(f.st, "fault")
 }
 
 func (w *world) tgtName(uri string) string {
@@ -124,6 +202,11 @@ func (w *world) state(ev hx.Event) {
 		mem = append(mem, t.TaskID)
 	}
 	ev["memtasks"] = mem
+	fl := []hx.Event{}
+	for _, f := range w.inFlight() {
+		fl = append(fl, hx.Event{"id": f.id, "db": hx.S(f.st, "db"), "coll": hx.S(f.st, "coll"), "tgt": hx.S(f.st, "tgt"), "calls": w.gate.Calls(f.gr)})
+	}
+	ev["flight"] = fl
 }
 
 // a concrete name covered by the pattern (for "own" mappings) / not covered (for "foreign" ones)
@@ -167,13 +250,54 @@ func run(p *hx.Plan) []hx.Event {
 		maxTasks = 100
 	}
 	good, _ := srvenv.MilvusURIs()
-	w := &world{env: srvenv.New(maxTasks), tgts: map[string]string{"A": good[0], "B": good[1]}, rev: map[string]string{good[0]: "A", good[1]: "B"}}
+	env, gate := srvenv.NewGated(maxTasks)
+	w := &world{env: env, gate: gate, tgts: map[string]string{"A": good[0], "B": good[1]}, rev: map[string]string{good[0]: "A", good[1]: "B"},
+		reqs: map[int]*flight{}}
 	defer w.env.Close()
 	var evs []hx.Event
-	for i, st := range p.Steps {
+	next := 0 // index of the next plan step
+	for next < len(p.Steps) || len(w.inFlight()) > 0 {
+		var st map[string]interface{}
+		pos := 0 // 1-based position in the plan (names the task of a create), 0 = a step added by the driver
+		if next >= len(p.Steps) || (hx.S(p.Steps[next], "op") == "restart" && len(w.inFlight()) > 0) {
+			// the plan is over (or the process is about to be replaced): the requests still in flight run to
+			// completion, oldest first
+			st = map[string]interface{}{"op": "step", "req": float64(w.inFlight()[0].pos), "auto": true}
+		} else {
+			st, pos = p.Steps[next], next+1
+			next++
+		}
+		i := len(evs)
 		op := hx.S(st, "op")
-		ev := hx.Event{"op": op, "i": i + 1, "n": len(p.Steps)}
+		ev := hx.Event{"op": op, "i": i + 1, "pos": pos, "auto": hx.B(st, "auto")}
 		fault := hx.I(st, "fault")
+		if op == "begin" || op == "step" {
+			w.env.Store.ResetCalls()
+			w.env.FailEntity(0)
+			var f *flight
+			var res, txt string
+			if op == "begin" {
+				f, res, txt = w.begin(pos, st)
+			} else if f = w.reqs[hx.I(st, "req")]; f == nil || !f.active {
+				// the design expected the request to be in flight still; on the code it was rejected or has returned
+				res = "gone"
+				if f == nil {
+					f = &flight{id: fmt.Sprintf("t%02d", hx.I(st, "req")), st: map[string]interface{}{}}
+				}
+			} else {
+				res, txt = w.advance(f, f.gr.Release)
+			}
+			if res == "" {
+				return append(evs, hx.Event{"op": "machinery", "i": i + 1, "err": txt, "id": f.id})
+			}
+			f.describe(ev)
+			ev["res"], ev["err"] = res, txt
+			ev["fault_hit"] = f.gr != nil && w.gate.Hits(f.gr) > 0
+			w.state(ev)
+			w.env.Rec.Take()
+			evs = append(evs, ev)
+			continue
+		}
 		w.env.Store.ResetCalls()
 		w.env.FailEntity(0)
 		switch {
@@ -185,7 +309,7 @@ func run(p *hx.Plan) []hx.Event {
 		builds := w.env.EntityBuilds()
 		switch op {
 		case "create":
-			id := fmt.Sprintf("t%02d", i+1)
+			id := fmt.Sprintf("t%02d", pos)
 			req := w.createReq(st, id)
 			resp, err := w.env.CDC.Create(req)
 			ev["db"], ev["coll"], ev["via"], ev["map"], ev["ur"], ev["tgt"] = hx.S(st, "db"), hx.S(st, "coll"), hx.S(st, "via"), hx.S(st, "map"), hx.B(st, "ur"), hx.S(st, "tgt")
@@ -208,7 +332,7 @@ func run(p *hx.Plan) []hx.Event {
 				ev["err"] = err.Error()
 			}
 		case "restart":
-			w.env.Restart()
+			w.env.RestartOn(w.gate)
 			ev["res"] = "ok"
 			ev["err"] = ""
 			ev["id"] = ""
@@ -222,6 +346,9 @@ func run(p *hx.Plan) []hx.Event {
 		w.state(ev)
 		w.env.Rec.Take()
 		evs = append(evs, ev)
+	}
+	for _, ev := range evs {
+		ev["n"] = len(evs)
 	}
 	return evs
 }
